@@ -185,7 +185,8 @@ func VerifRetry_Sessionless() {
 	d.stray = func(dNetFn, dCmd byte) []byte {
 		// long enough to be a complete group-extension or OEM response as well (body code /
 		// enterprise number after the completion code)
-		return refSessionless(0x00, refBuildMsg(0x81, (netFn|1)^dNetFn, 0, 0x20, 1, lun, cmdNo^dCmd, append([]byte{0x00}, vBytes(4)...)))
+		// (any completion code, any requester sequence number)
+		return refSessionless(0x00, refBuildMsg(0x81, (netFn|1)^dNetFn, 0, 0x20, vByte()&0x3f, lun, cmdNo^dCmd, append([]byte{vByte()}, vBytes(4)...)))
 	}
 	d.corrupt = func(v []byte) []byte {
 		x := vByte()
@@ -253,7 +254,7 @@ func VerifRetry_Session() {
 		return refSessionPacket(vs.sess.LocalID, bmcSeq, integ, vs.k1, vs.k2, vBytes(16), m)
 	}
 	d.stray = func(dNetFn, dCmd byte) []byte {
-		m := refBuildMsg(0x81, (netFn|1)^dNetFn, 0, 0x20, 1, lun, cmdNo^dCmd, []byte{0x00})
+		m := refBuildMsg(0x81, (netFn|1)^dNetFn, 0, 0x20, vByte()&0x3f, lun, cmdNo^dCmd, []byte{vByte()})
 		return refSessionPacket(vs.sess.LocalID, bmcSeq, integ, vs.k1, vs.k2, vBytes(16), m)
 	}
 	d.corrupt = func(v []byte) []byte {
@@ -367,5 +368,59 @@ func VerifC10_HandshakeStray() {
 		}
 	}
 	vAssert(len(ft.sent) == want, "c10-handshake-one-retransmission-per-unusable-reply")
+	vReached("end")
+}
+
+// C09 (two sessions on one connection): two sessions opened one after the other over the
+// same connection (to the same BMC) and then used alternately. Each session's datagrams
+// carry its own numbers 1, 2, ... - opening or using the other session neither resets nor
+// advances them.
+func VerifC09_TwoSessions() {
+	ft := &vFakeTransport{}
+	s := vNewSessionless(ft)
+	password := vBytes(8)
+	bmcs := []*refBMC{
+		{password: password, sidC: vU32(), rC: vBytes(16), guid: vBytes(16), useProposal: true},
+		{password: password, sidC: vU32(), rC: vBytes(16), guid: vBytes(16), useProposal: true},
+	}
+	vAssume(bmcs[0].sidC != bmcs[1].sidC)
+	cur := 0
+	var seqs [2][]uint32
+	ft.reply = func(attempt int, req []byte) ([]byte, error) {
+		if len(req) > 16 && req[5] == 0xC0 {
+			// an in-session IPMI message: note the session it is addressed to and its number
+			which := 1
+			if refLE32(req[6:10]) == bmcs[0].sidC {
+				which = 0
+			}
+			seqs[which] = append(seqs[which], refLE32(req[10:14]))
+			b := bmcs[which]
+			m := refBuildMsg(0x81, 0x07, 0, 0x20, 1, 0, 0x01, []byte{0x00})
+			return refSessionPacket(b.sidM, uint32(len(seqs[which])), b.rspInteg, b.k1, b.k2, vBytes(16), m), nil
+		}
+		return bmcs[cur].handle(req), nil
+	}
+	opts := &V2SessionOpts{SessionOpts: SessionOpts{Password: password, MaxPrivilegeLevel: ipmi.PrivilegeLevelUser},
+		CipherSuites: []ipmi.CipherSuite{ipmi.CipherSuite3}}
+	a, errA := s.NewV2Session(context.Background(), opts)
+	vAssert(errA == nil, "c09-first-session-opens")
+	cur = 1
+	b, errB := s.NewV2Session(context.Background(), opts)
+	vAssert(errB == nil, "c09-second-session-opens")
+	if errA != nil || errB != nil {
+		return
+	}
+	for i := 0; i < 2; i++ {
+		_, err := a.SendCommand(context.Background(), &vSynthCmd{op: ipmi.OperationGetDeviceIDReq})
+		vAssert(err == nil, "c09-command-on-first-session-completes")
+		_, err = b.SendCommand(context.Background(), &vSynthCmd{op: ipmi.OperationGetDeviceIDReq})
+		vAssert(err == nil, "c09-command-on-second-session-completes")
+	}
+	for w := 0; w < 2; w++ {
+		vAssert(len(seqs[w]) == 2, "c09-each-session-sent-its-two-commands")
+		for i, q := range seqs[w] {
+			vAssert(q == uint32(i)+1, "c09-each-session-counts-from-one-by-itself")
+		}
+	}
 	vReached("end")
 }
